@@ -99,9 +99,29 @@ def tev(op, s, c='', out='', kind='ok', mode='normal'):
     return {'op': op, 's': [ord(x) for x in s], 'c': [ord(x) for x in c], 'out': [ord(x) for x in out], 'kind': kind, 'mode': mode}
 
 
+class ShownOtherwise(str):
+    """a digit string whose str() / format() is something else (an enum member, a wrapper that prints masked); its
+    characters are what the functions are asked about"""
+
+    def __str__(self):
+        return 'PAN(' + self[:2] + '...)'
+
+    def __format__(self, spec):
+        return str(self)
+
+    def __repr__(self):
+        return 'ShownOtherwise(%s)' % str.__repr__(self)
+
+
 def call(fn, *a):
+    import zlib
+    h = zlib.crc32(repr((getattr(fn, '__name__', ''), a)).encode())
+    if h % 5 == 2 and a and type(a[0]) is str:
+        a = (ShownOtherwise(a[0]),) + a[1:]
     try:
-        return 'ok', fn(*a)
+        with drv.Env('card', getattr(fn, '__name__', ''), a):
+            out = fn(*a)
+        return 'ok', (str.__str__(out) if isinstance(out, str) and type(out) is not str else out)
     except AssertionError:
         return 'assert', ''
     except BaseException as ex:  # noqa
